@@ -3,6 +3,7 @@ package rules
 import (
 	"fmt"
 	"go/token"
+	"go/types"
 	"strings"
 
 	"golang.org/x/tools/go/ssa"
@@ -134,7 +135,27 @@ func init() {
 		c.RequireAtomicOnly("C27b", "protocol/lavasession.ProviderSessionsEpochData.UsedComputeUnits", 3)
 		c.RequireAtomicOnly("C27b", "protocol/lavasession.ProviderSessionsEpochData.MissingComputeUnits", 2)
 		c.RequireAtomicOnly("C27b", "protocol/lavasession.ProviderSessionsEpochData.MaxComputeUnits", 1)
-		c.RequireAtomicOnly("C27b", "protocol/lavasession.SingleProviderSession.CuSum", 2)
+		c.Rule("C27b' lock discipline: every access to SingleProviderSession.CuSum (plain or atomic) happens with the session mutex held — dominated by the VerifyLock assertion or by sps.lock.Lock() in the same function — or flows only into logging")
+		nacc := 0
+		for _, a := range c.fieldAccesses("protocol/lavasession.SingleProviderSession.CuSum") {
+			if a.Fresh {
+				continue
+			}
+			nacc++
+			where := a.Instr
+			fn := a.Fn
+			// accessor wrappers: judge their call sites instead
+			if n := ir.FuncName(fn); n == sps+"atomicReadCuSum" || n == sps+"writeCuSumAtomically" {
+				for _, ref := range c.References(fn) {
+					c.lockHeldOrLogged("C27b'", ref.Fn, ref.Instr, "CuSum via "+shortNames([]string{n}))
+				}
+				continue
+			}
+			c.lockHeldOrLogged("C27b'", fn, where, "CuSum "+a.Kind)
+		}
+		if nacc < 5 {
+			c.Undecided("expected at least 5 accesses to SingleProviderSession.CuSum, found %d", nacc)
+		}
 
 		c.Rule("C27c limit: validateAndAddUsedCU returns nil only after usedCu+currentCU <= maxCu*(virtualEpoch+1) on the value it then compare-and-swaps from; the unconditional atomic store of used CU has no caller (every update is a CAS)")
 		c.RequireGuards("C27c", c.SuccessReturns(vadd), "return-nil",
@@ -159,7 +180,7 @@ func init() {
 			c.Fail("C27c/validateAndAddUsedCU/single-read", c.P.Pos(vadd.Pos()), fmt.Sprintf("expected one atomic read per iteration, found %d: check and swap may use different values", len(reads)))
 		}
 		c.RequireCallers("C27c", pswc+"atomicWriteUsedComputeUnits")
-		c.RequireCallers("C27c", sps+"writeCuSumAtomically")
+		c.RequireCallers("C27c", sps+"writeCuSumAtomically", psm+"UpdateSessionCU")
 		// max CU passed is the parent's, virtual epoch is the caller's
 		for _, s := range c.CallsByName(prep, false, sps+"validateAndAddUsedCU") {
 			a := argDescs(ir.CallOf(s.Instr))
@@ -291,7 +312,7 @@ func init() {
 					}
 				}
 				for _, r := range rets {
-					res := c.mustPassBefore(f, r.Instr, IsCallTo(sps+"lockForUse", sps+"tryLockForUse"))
+					res := c.mustPassBefore(f, r.Instr, IsCallTo(sps+"lockForUse", sps+"tryLockForUse", pswc+"getExistingSession"))
 					if res {
 						c.OK("C27e/"+fnn+"/returns-locked-session", c.P.InstrPos(r.Instr), "lock attempt on every path to this return")
 					} else {
@@ -357,6 +378,50 @@ func init() {
 		c.RequireNoUnsignedWrap("C27h", psm+"UpdateSessionCU", 1)
 		c.NotCovered("the accounting equality (used CU == sum of session CuSums) over all schedules; liveness of the try-lock")
 	})
+}
+
+// lockHeldOrLogged records one obligation for an access to a session field: the session
+// mutex is held (VerifyLock assertion passed, or sps.lock.Lock() called earlier on every
+// path in this function), or the value only feeds logging.
+func (c *Ctx) lockHeldOrLogged(rule string, fn *ssa.Function, at ssa.Instruction, what string) {
+	key := fmt.Sprintf("%s/%s/%s", rule, topName(fn), what)
+	for _, g := range ir.Guards(at) {
+		if ErrNil(sps + "VerifyLock").Match(g) {
+			c.OK(key, c.P.InstrPos(at), "VerifyLock assertion passed")
+			return
+		}
+	}
+	locked := c.mustPassBefore(fn, at, func(in ssa.Instruction) bool {
+		call := ir.CallOf(in)
+		if call == nil {
+			return false
+		}
+		if _, isDefer := in.(*ssa.Defer); isDefer {
+			return false
+		}
+		n := ir.CalleeName(call)
+		if n == sps+"lockForUse" {
+			return true
+		}
+		return n == "sync.RWMutex.Lock" && len(call.Args) > 0 && strings.HasSuffix(ir.Desc(call.Args[0]), ".lock") && strings.Contains(ir.TypeName(fieldBaseType(call.Args[0])), "SingleProviderSession")
+	})
+	if locked {
+		c.OK(key, c.P.InstrPos(at), "session mutex locked earlier on every path")
+		return
+	}
+	if v, ok := at.(ssa.Value); ok && onlyLogged(v) {
+		c.Note(key, c.P.InstrPos(at), "unsynchronised read feeds logging only")
+		return
+	}
+	c.Fail(key, c.P.InstrPos(at), "session field accessed without the session mutex: it races with relays that change it under the mutex")
+}
+
+// fieldBaseType: for &x.f the type of x (pointer stripped by TypeName).
+func fieldBaseType(v ssa.Value) types.Type {
+	if fa, ok := v.(*ssa.FieldAddr); ok {
+		return fa.X.Type()
+	}
+	return v.Type()
 }
 
 // mustPassBefore: every path from the entry of fn to instruction target passes an
